@@ -559,24 +559,29 @@ func (s Subtitles) WriteToWebVTT(o io.Writer) (err error) {
 		c = append(c, []byte(formatDurationWebVTT(item.EndAt))...)
 
 		// Add styles
-		if item.InlineStyle != nil {
-			if item.InlineStyle.WebVTTAlign != "" {
+		inlineStyle := item.InlineStyle
+		if inlineStyle == nil && (item.Region != nil || item.Style != nil) {
+			// The region and the style of the item must be written even without inline style
+			inlineStyle = &StyleAttributes{}
+		}
+		if inlineStyle != nil {
+			if inlineStyle.WebVTTAlign != "" {
 				c = append(c, bytesSpace...)
-				c = append(c, []byte("align:"+item.InlineStyle.WebVTTAlign)...)
+				c = append(c, []byte("align:"+inlineStyle.WebVTTAlign)...)
 			} else if item.Style != nil && item.Style.InlineStyle != nil && item.Style.InlineStyle.WebVTTAlign != "" {
 				c = append(c, bytesSpace...)
 				c = append(c, []byte("align:"+item.Style.InlineStyle.WebVTTAlign)...)
 			}
-			if item.InlineStyle.WebVTTLine != "" {
+			if inlineStyle.WebVTTLine != "" {
 				c = append(c, bytesSpace...)
-				c = append(c, []byte("line:"+item.InlineStyle.WebVTTLine)...)
+				c = append(c, []byte("line:"+inlineStyle.WebVTTLine)...)
 			} else if item.Style != nil && item.Style.InlineStyle != nil && item.Style.InlineStyle.WebVTTLine != "" {
 				c = append(c, bytesSpace...)
 				c = append(c, []byte("line:"+item.Style.InlineStyle.WebVTTLine)...)
 			}
-			if item.InlineStyle.WebVTTPosition != "" {
+			if inlineStyle.WebVTTPosition != "" {
 				c = append(c, bytesSpace...)
-				c = append(c, []byte("position:"+item.InlineStyle.WebVTTPosition)...)
+				c = append(c, []byte("position:"+inlineStyle.WebVTTPosition)...)
 			} else if item.Style != nil && item.Style.InlineStyle != nil && item.Style.InlineStyle.WebVTTPosition != "" {
 				c = append(c, bytesSpace...)
 				c = append(c, []byte("position:"+item.Style.InlineStyle.WebVTTPosition)...)
@@ -585,16 +590,16 @@ func (s Subtitles) WriteToWebVTT(o io.Writer) (err error) {
 				c = append(c, bytesSpace...)
 				c = append(c, []byte("region:"+item.Region.ID)...)
 			}
-			if item.InlineStyle.WebVTTSize != "" {
+			if inlineStyle.WebVTTSize != "" {
 				c = append(c, bytesSpace...)
-				c = append(c, []byte("size:"+item.InlineStyle.WebVTTSize)...)
+				c = append(c, []byte("size:"+inlineStyle.WebVTTSize)...)
 			} else if item.Style != nil && item.Style.InlineStyle != nil && item.Style.InlineStyle.WebVTTSize != "" {
 				c = append(c, bytesSpace...)
 				c = append(c, []byte("size:"+item.Style.InlineStyle.WebVTTSize)...)
 			}
-			if item.InlineStyle.WebVTTVertical != "" {
+			if inlineStyle.WebVTTVertical != "" {
 				c = append(c, bytesSpace...)
-				c = append(c, []byte("vertical:"+item.InlineStyle.WebVTTVertical)...)
+				c = append(c, []byte("vertical:"+inlineStyle.WebVTTVertical)...)
 			} else if item.Style != nil && item.Style.InlineStyle != nil && item.Style.InlineStyle.WebVTTVertical != "" {
 				c = append(c, bytesSpace...)
 				c = append(c, []byte("vertical:"+item.Style.InlineStyle.WebVTTVertical)...)
